@@ -75,8 +75,8 @@ where
 {
     let bin_count = read_bin_count(reader)?;
 
-    let mut bins = IndexMap::with_capacity(bin_count);
-    let mut index = BinnedIndex::with_capacity(bin_count);
+    let mut bins = IndexMap::new();
+    let mut index = BinnedIndex::new();
 
     let metadata_id = Bin::metadata_id(depth);
     let mut metadata = None;
@@ -118,6 +118,20 @@ where
 #[cfg(test)]
 mod tests {
     use super::*;
+
+    #[test]
+    fn test_read_bins_with_an_unsatisfiable_bin_count() {
+        const DEPTH: u8 = 5;
+
+        let data = [
+            0xff, 0xff, 0xff, 0x7f, // n_bin = 2147483647
+        ];
+
+        assert!(matches!(
+            read_bins(&mut &data[..], DEPTH),
+            Err(ReadError::Io(e)) if e.kind() == io::ErrorKind::UnexpectedEof
+        ));
+    }
 
     #[test]
     fn test_read_bins() -> Result<(), ReadError> {
